@@ -250,6 +250,33 @@ def memoHistory {ν : Type} (ckey : ε → String) (val : ε → ν) (g : ε →
   | m, [] => m
   | m, xs :: rest => memoHistory ckey val g (memoRun ckey val g m xs).1 rest
 
+/-! ### process-level option defaults
+
+`Acelyzer.defaults` is a class-level dict; `--event_limit` is registered with
+`default=self.defaults["event_limits"]` (that very object) and `_parse_event_limit_type` merges the
+parsed JSON into a **copy** of it.  The class-level dict is therefore a hidden input that no run
+changes.  `parseInPlace` is the variant that merges into the object itself. -/
+
+abbrev Opts := List (String × Int)
+
+def optGet (k : String) : Opts → Option Int
+  | [] => none
+  | (k', v) :: rest => if k' = k then some v else optGet k rest
+
+/-- `result.update(parsed)`: the command line wins -/
+def mergeOpts (d cmd : Opts) : Opts := cmd ++ d
+
+/-- current code: (effective options of the run, class-level defaults afterwards) -/
+def parseCopy (d cmd : Opts) : Opts × Opts := (mergeOpts d cmd, d)
+
+/-- `result = self.defaults[...]; result |= parsed`: the defaults object itself is updated -/
+def parseInPlace (d cmd : Opts) : Opts × Opts := (mergeOpts d cmd, mergeOpts d cmd)
+
+/-- a process-level state threaded through a history of runs -/
+def stateAfter {σ ι ο : Type} (step : σ → ι → ο × σ) : σ → List ι → σ
+  | s, [] => s
+  | s, i :: rest => stateAfter step (step s i).2 rest
+
 /-! ### the specification: no hidden input at all -/
 
 /-- the stage with the job map reduced to this run's own registrations and grouping by the key itself -/
